@@ -60,6 +60,7 @@ type vsAttempt struct {
 	advance   time.Duration // clock advance by the client in mid-upload
 	advAfter  int           // after this many files
 	cutClass  string        // cut-eof: where in the multipart stream the body ended
+	committed bool          // the client got as far as calling Commit
 	extended  bool          // overlapped an extended-lane fault (SQL statement failure, crash-restart): restricted oracle
 }
 
@@ -350,6 +351,7 @@ func (e *vsEnv) upload(c *vsClient, a *vsAttempt) {
 			vsWriteField(u, "bogus", "1")
 		}
 		sim.Yield("client:commit")
+		a.committed = true
 		st, a.clientErr = u.Commit()
 	}
 	a.status, a.body = c.tr.status, c.tr.body
@@ -436,7 +438,9 @@ func (e *vsEnv) settle(attempts []*vsAttempt, faultsOn bool) {
 		if ok && a.fault.Kind == "cut" && strings.HasPrefix(a.cutClass, "broken:") && a.cutClass != "broken:after-final-delimiter" {
 			r.Fail("all-or-nothing", "truncated-body-committed", "%s: the request body broke off after %d bytes (%s) but the server committed the upload: %d %q", a.client, a.fault.Pos, a.cutClass, a.status, clipS(a.body))
 		}
-		if ok != (a.clientErr == nil) && !a.extended {
+		// what Commit tells the client must agree with what the server did; what Abort returns after the server has
+		// refused the upload as intended is not prescribed
+		if ok != (a.clientErr == nil) && !a.extended && (a.committed || ok) {
 			r.Fail("client-view", "client-server-disagree", "%s: server answered %d %q but the client reported err=%v", a.client, a.status, clipS(a.body), a.clientErr)
 		}
 		created := e.fs.createdBy(a.client)
@@ -662,20 +666,24 @@ func (e *vsEnv) checkQuery(terms []vsTerm, forcedText string) {
 		gc[g]++
 	}
 	sig, example := "results-differ", ""
-	for w, n := range wc {
+	// (classification walks the sorted lists: which example is named must not depend on Go's map order)
+	for _, w := range want {
+		n := wc[w]
 		if gc[w] < n {
 			sig, example = "record-missing", w
 			// same content with other labels?
-			for g := range gc {
+			for _, g := range got {
 				if strings.SplitN(g, "\x00", 2)[0] == strings.SplitN(w, "\x00", 2)[0] && wc[g] == 0 {
 					sig, example = "labels-differ", w+"  GOT  "+g
+					break
 				}
 			}
 			break
 		}
 	}
 	if sig == "results-differ" {
-		for g, n := range gc {
+		for _, g := range got {
+			n := gc[g]
 			if wc[g] < n {
 				sig, example = "record-unexpected", g
 				if wc[g] > 0 {
